@@ -454,7 +454,13 @@ Lemma step_refines : forall base st f o,
   /\ output_is base (snd (step st o)) (snd (astep f (abs_op o))).
 Proof.
   intros base st f o Hrep. apply represents_unfold in Hrep. destruct Hrep as (Hviews & Hfr & Hag & Hok).
-  destruct o as [i vo|]; unfold step, step_with, astep; cbn [abs_op].
+  destruct o as [i vo| |]; unfold step, step_with, astep; cbn [abs_op].
+  3:{ (* free() with sdram_free raising: both sides stay as they are *)
+      assert (Hsame : represents base st f) by (apply represents_unfold; repeat split; assumption).
+      inversion Hviews as [Hl1 Hl2 | x y l1 l2 Hxy Hrest Hl1 Hl2].
+      - cbn [fst snd]. split; [exact Hsame|]. split; [exact I|reflexivity].
+      - rewrite <- Hfr. destruct (st_freed st); cbn [fst snd]; (split; [exact Hsame|]);
+          (split; [reflexivity|reflexivity]). }
   - pose proof (Forall2_nth_error _ _ _ _ _ i Hviews) as Hi.
     destruct (nth_error (st_views st) i) as [v|] eqn:Hv; destruct (nth_error (a_wins f) i) as [w|] eqn:Hw;
       try contradiction.
